@@ -147,7 +147,11 @@ type shape struct {
 	Pipe      bool
 	OutFail   bool // server output fails from its j-th write on (thorough)
 	NoHandshk bool
-	maxBytes  int
+	// Burst: a fixed script of six work-starts with distinct run ids whose steps all fail (three panic, three get an
+	// input the schema rejects) over an unbuffered pipe whose reader starts late (it first sleeps on a virtual timer,
+	// which fires only when nothing else can move): every failure report has to queue up behind a blocked write.
+	Burst    bool
+	maxBytes int
 }
 
 func shapes(tier string) []shape {
@@ -157,6 +161,7 @@ func shapes(tier string) []shape {
 		{Name: "1-message-truncated", Len: 1, Truncate: true},
 		{Name: "2-messages", Len: 2},
 		{Name: "1-message-pipe", Len: 1, Pipe: true},
+		{Name: "burst-of-6-failing-runs-slow-reader", Burst: true, Pipe: true},
 	}
 	if tier == "thorough" {
 		s = append(s,
@@ -190,6 +195,17 @@ func body(sh *shape) func() {
 		n := len(alphabet)
 		for i := 0; i < sh.Len; i++ {
 			o.script = append(o.script, alphabet[mcrt.Choose(n, "message")])
+		}
+		if sh.Burst {
+			for i := 1; i <= 6; i++ {
+				run := fmt.Sprintf("b%d", i)
+				if i%2 == 1 {
+					o.script = append(o.script, item{Name: "start(" + run + ",panic)", Bytes: ws(run, "s", "panic"), Run: run})
+				} else {
+					o.script = append(o.script, item{Name: "start(" + run + ",rejected-input)", Run: run,
+						Bytes: rt(atp.MessageTypeWorkStart, run, atp.WorkStartMessage{StepID: "s", Config: map[string]any{"mode": []any{int64(1), int64(2)}}})})
+				}
+			}
 		}
 		var script []byte
 		script = append(script, startMsg...)
@@ -226,6 +242,15 @@ func body(sh *shape) func() {
 		mcrt.GoNamed("drain", func() {
 			r := s2c.Reader()
 			buf := make([]byte, 4096)
+			if sh.Burst {
+				// the hello has to be read (the server writes it before anything else); after that the reader is busy
+				k, err := r.Read(buf)
+				o.out = append(o.out, buf[:k]...)
+				if err != nil {
+					return
+				}
+				mcrt.Sleep(time.Second)
+			}
 			for {
 				k, err := r.Read(buf)
 				o.out = append(o.out, buf[:k]...)
